@@ -25,7 +25,7 @@ def _cases(dss, schemes, all_schemes, max_runs=200):
     out = []
     for k, D in enumerate(dss):
         for s in (schemes if all_schemes else [schemes[k % len(schemes)]]):
-            out.append({"D": D, "sch": list(s), "naming": ["ints", "letters"][k % 2], "max_runs": max_runs})
+            out.append({"D": D, "sch": list(s), "naming": ["ints", "letters", "neg", "zero"][k % 4], "max_runs": max_runs})
     return out
 
 
@@ -40,6 +40,26 @@ def _mut_cases(dss, schemes):
             ops.append({"op": "remove_elements", "S": [U[k % len(U)]]})
         out.append({"D": D, "sch": list(schemes[k % len(schemes)]), "naming": ["ints", "letters"][k % 2],
                     "max_runs": 60, "ops": [ops[k % len(ops)]]})
+    return out
+
+
+def wide(rng, count):
+    """65-70 elements: code paths that switch on the size of a group (only a few schedules are run)"""
+    out = []
+    for _ in range(count):
+        n = rng.randint(65, 70)
+        base = rng.sample(range(1, n + 1), n)
+        D = []
+        for _ in range(rng.randint(2, 3)):
+            r = [[e] for e in base]
+            for _ in range(rng.randint(3, 10)):
+                j = rng.randrange(len(r) - 1)
+                if rng.random() < .5:
+                    r[j], r[j + 1] = r[j + 1], r[j]
+                else:
+                    r[j:j + 2] = [sorted(r[j] + r[j + 1])]
+            D.append(r)
+        out.append(D)
     return out
 
 
@@ -83,6 +103,9 @@ def stages(tier, rng, only=None, prop=None):
                      lambda: _cases(grids.datasets(3, 2)[::3] + [ac.random_dataset(rng, 4, 4, nmin=3)
                                                                   for _ in range(100 if tier == "quick" else 1000)],
                                     PRECISE, False, 60), _nt, kwikrun.init, post=kwikrun.flatten, aux=aux))
+    out.append(Stage("wide", "Trace_Kwik", kwikrun.run_all_schedules,
+                     lambda: _cases(wide(rng, 3 if tier == "quick" else 12), SCHEMES, False, 2), _nt, kwikrun.init,
+                     post=kwikrun.flatten, aux=aux, chunk=4))
     if tier == "quick":
         out.append(Stage("grid4x2sample", "Trace_Kwik", kwikrun.run_all_schedules,
                          lambda: _cases(grids.datasets(4, 2)[::40], SCHEMES, False), _nt, kwikrun.init,
